@@ -280,6 +280,39 @@ VARIANTS = [
                        "class HumanMessageSerializer:\n"},
                {"file": FMT, "old": "        printer = HippoPrettyPrinter(width=100)\n        val = printer.pformat(val)\n        newstr = \"\"\n",
                 "new": "        return _wrap_literal(val)\n        printer = HippoPrettyPrinter(width=100)\n        val = printer.pformat(val)\n        newstr = \"\"\n"}]},
+    # ------------------------------------------------------------------ round 5
+    {"name": "P2 multi-line printer joins with marker + indent as one separator", "expect": "silent",
+     "edits": [{"file": FMT, "old": "class HumanMessageSerializer:\n",
+                "new": "_JOINT = \" \\\\\\n\" + \"  \"\n\n\ndef _wrapped(val):\n"
+                       "    return _JOINT.join(HippoPrettyPrinter(width=100).pformat(val).splitlines())\n\n\n"
+                       "class HumanMessageSerializer:\n"},
+               {"file": FMT, "old": "        printer = HippoPrettyPrinter(width=100)\n        val = printer.pformat(val)\n        newstr = \"\"\n",
+                "new": "        return _wrapped(val)\n        printer = HippoPrettyPrinter(width=100)\n        val = printer.pformat(val)\n        newstr = \"\"\n"}]},
+    {"name": "R7 Material registered through an adapter serializer while a switch depends on it", "file": TEMPLATES, "expect": "C11.R7",
+     "old": "@se.enum_field_serializer(\"ViewerEffect\", \"Effect\", \"Type\")\n",
+     "new": "@se.subfield_serializer(\"ViewerEffect\", \"Effect\", \"TypeData\")\n"},
+    {"name": "R7 parser no longer resolves enum serializers first", "file": FMT, "expect": "C11.R7",
+     "old": "            standalone = (se.IntEnumSubfieldSerializer, se.IntFlagSubfieldSerializer)\n",
+     "new": "            standalone = (se.IntFlagSubfieldSerializer,)\n"},
+    {"name": "P7 standalone kinds listed in the other order", "file": FMT, "expect": "silent",
+     "old": "            standalone = (se.IntEnumSubfieldSerializer, se.IntFlagSubfieldSerializer)\n",
+     "new": "            standalone = (se.IntFlagSubfieldSerializer, se.IntEnumSubfieldSerializer)\n"},
+    {"name": "R8 two-valued adapter on a two-bit field", "file": TEMPLATES, "expect": "C11.R8",
+     "old": "    Invert: bool = se.bitfield_field(bits=1, adapter=se.BoolAdapter())\n",
+     "new": "    Invert: bool = se.bitfield_field(bits=2, adapter=se.BoolAdapter())\n"},
+    {"name": "R8 BOOL alias wraps the byte in the two-valued adapter", "file": SER, "expect": "C11.R8",
+     "old": "BOOL = U8\n", "new": "BOOL = BoolAdapter(U8)\n"},
+    {"name": "P8 keyword order of a one-bit boolean field", "file": TEMPLATES, "expect": "silent",
+     "old": "    Invert: bool = se.bitfield_field(bits=1, adapter=se.BoolAdapter())\n",
+     "new": "    Invert: bool = se.bitfield_field(adapter=se.BoolAdapter(), bits=1)\n"},
+    {"name": "R9 name-value list gains a class-tagged repr", "file": "hippolyzer/lib/base/namevalue.py", "expect": "C11.R9",
+     "old": "    def __str__(self):\n        return \"\\n\".join(str(x) for x in self)\n",
+     "new": "    def __str__(self):\n        return \"\\n\".join(str(x) for x in self)\n\n"
+            "    def __repr__(self):\n        return \"NameValueCollection(%s)\" % list.__repr__(self)\n"},
+    {"name": "P9 name-value list gains a helper method", "file": "hippolyzer/lib/base/namevalue.py", "expect": "silent",
+     "old": "    def __str__(self):\n        return \"\\n\".join(str(x) for x in self)\n",
+     "new": "    def __str__(self):\n        return \"\\n\".join(str(x) for x in self)\n\n"
+            "    def names(self):\n        return [x.name for x in self]\n"},
     # ------------------------------------------------------------------ documented limits
     {"name": "X wrap width changed (line-wrapping details are value level)", "file": FMT, "expect": "miss",
      "old": "HippoPrettyPrinter(width=100)", "new": "HippoPrettyPrinter(width=40)"},
